@@ -155,6 +155,7 @@ var chanExceptions = []chanException{
 // checkChannelOps applies F2 to functions reachable from HTTP handler roots.
 func checkChannelOps(p *Program, r *Reporter, rule string, floor int) {
 	r.Rule(rule, "channel send/receive reachable from an HTTP handler: inside a select with a cancellation, timeout or default arm", floor)
+	exceptionProgram = p
 	var hroots []*ssa.Function
 	for _, rt := range p.Roots {
 		if rt.Class == "H" {
